@@ -348,11 +348,20 @@ func (e *Entry) errorf(format string, v ...interface{}) {
 	e.Errors = append(e.Errors, fmt.Errorf(format, v...))
 }
 
-// addError appends err to the list of errors on e if err is not nil.
+// addError appends err to the list of errors on e if err is not nil and
+// not in the list yet. (Errors travel up the tree by being imported into each
+// ancestor; without this check an error below nested groupings is recorded
+// once for every path that leads to it, again at every level.)
 func (e *Entry) addError(err error) {
-	if err != nil {
-		e.Errors = append(e.Errors, err)
+	if err == nil {
+		return
 	}
+	for _, have := range e.Errors {
+		if have.Error() == err.Error() {
+			return
+		}
+	}
+	e.Errors = append(e.Errors, err)
 }
 
 // importErrors imports all the errors from c and its children into e.
